@@ -138,8 +138,10 @@ Theorem simage_inj_iso g A : Lang.inj_on g (map sym (rules A)) ->
   length (nodup rule_eq_dec (rules (simage g A))) = length (nodup rule_eq_dec (rules A)).
 Proof.
   intros Hinj. split; [apply simage_states|]. simpl. apply nodup_map_len.
-  intros r1 r2 H1 H2 E. unfold smap_rule in E. inversion E as [[Es Ec Ep]]. destruct r1, r2; simpl in *. f_equal; auto.
-  apply Hinj; auto; [apply (in_map sym) in H1 | apply (in_map sym) in H2]; auto.
+  intros r1 r2 H1 H2 E.
+  assert (S1 : In (sym r1) (map sym (rules A))) by (apply in_map; auto).
+  assert (S2 : In (sym r2) (map sym (rules A))) by (apply in_map; auto).
+  unfold smap_rule in E. inversion E as [[Es Ec Ep]]. apply Hinj in Es; auto. destruct r1, r2; simpl in *. subst; auto.
 Qed.
 
 (* ---------- gates on an implementation's result ---------- *)
@@ -252,7 +254,7 @@ Proof.
 Qed.
 
 Lemma ccontains_getd k (cl : cluster) t : memT t (getd k [] cl) = ccontains cl k t.
-Proof. unfold getd, ccontains. destruct (get k cl); auto. Qed.
+Proof. unfold getd, ccontains, cluster, tset in *. destruct (get k cl); reflexivity. Qed.
 
 Lemma ccontains_reindex_cl h cl0 : forall d a t,
   ccontains (reindex_cl h cl0 d) a t = true <->
@@ -294,8 +296,8 @@ Definition src_ok (S : store) : Prop := Forall (fun cl => cl <> [] /\ Forall (fu
 
 Lemma wf_src_ok S : wf_st S -> src_ok S.
 Proof.
-  intros [_ HF]. unfold src_ok. induction HF as [|cl l [_ [Hne Hts]] HF IH]; constructor; auto.
-  split; auto. clear Hne. induction Hts as [|ts m [_ Hn] _ IH2]; constructor; auto.
+  intros [_ HF]. unfold src_ok. eapply Forall_impl; [|exact HF]. intros cl [_ [Hne Hts]]. split; auto.
+  eapply Forall_impl; [|exact Hts]. intros ts [_ Hn]; auto.
 Qed.
 
 Lemma contains_as_ccontains (s : store) r :
@@ -303,7 +305,7 @@ Lemma contains_as_ccontains (s : store) r :
 Proof. reflexivity. Qed.
 
 Lemma contains_getd (s : store) r : ccontains (getd (par r) [] s) (sym r) (ch r) = contains s r.
-Proof. rewrite contains_as_ccontains. unfold getd. destruct (get (par r) s); auto. Qed.
+Proof. rewrite contains_as_ccontains. unfold getd, store, cluster, tset in *. destruct (get (par r) s); reflexivity. Qed.
 
 Lemma contains_reindex h S : forall D r,
   contains (reindex_nested h S D) r = true <->
@@ -313,7 +315,7 @@ Proof.
   - split; auto. intros [H|[q [cl [ts [[] _]]]]]; auto.
   - rewrite IH. rewrite (contains_as_ccontains (upd _ _ _ _)). rewrite get_upd. destruct (N.eqb (par r) (h q0)) eqn:E.
     + apply N.eqb_eq in E. rewrite ccontains_reindex_cl. rewrite <- E, contains_getd. split.
-      * intros [[H|[ts [H1 H2]]]|[q [cl [ts [H1 H2]]]]]; auto; right; [exists q0, cl0, ts | exists q, cl, ts]; auto. tauto.
+      * intros [[H|[ts [H1 H2]]]|[q [cl [ts [H1 H2]]]]]; auto; right; [exists q0, cl0, ts | exists q, cl, ts]; auto.
       * intros [H|[q [cl [ts [[H1|H1] [H2 [H3 H4]]]]]]]; auto.
         -- inversion H1; subst. left. right. exists ts; auto.
         -- right. exists q, cl, ts; auto.
@@ -354,9 +356,9 @@ Proof.
   split; [apply iter_nodup_wf; auto|]. intros r. rewrite (iter_contains _ _ W), contains_reindex, image_of_iter, (iter_contains _ _ WD). tauto.
 Qed.
 
-Lemma In_fold_addN_map h fs : forall d x, In x (fold_left (fun l q => addN (h q) l) fs d) <-> In x d \/ In x (map h fs).
+Lemma In_fold_addN_map (h : N -> N) (fs : list N) : forall d x, In x (fold_left (fun l q => addN (h q) l) fs d) <-> In x d \/ In x (map h fs).
 Proof. induction fs as [|f fs IH]; simpl; intros d x; [tauto|]. rewrite IH, In_addN. split; [intros [[->|H]|H]; auto | intros [H|[<-|H]]; auto]. Qed.
-Lemma fold_addN_map_NoDup h fs : forall d, NoDup d -> NoDup (fold_left (fun l q => addN (h q) l) fs d).
+Lemma fold_addN_map_NoDup (h : N -> N) (fs : list N) : forall d, NoDup d -> NoDup (fold_left (fun l q => addN (h q) l) fs d).
 Proof. induction fs; simpl; intros; auto. apply IHfs. apply addN_NoDup; auto. Qed.
 
 Theorem reindex_aut_wf h addf a d : wf a -> wf d -> wf (reindex_aut h addf a d).
